@@ -387,6 +387,21 @@ func (b *TB) bin(op Op, x, y *T) *T {
 			}
 		}
 	}
+	// (X << k) + y  with y < 2^k  is the concatenation X[w-k-1:0] ++ y[k-1:0]
+	if op == OAdd || op == OBOr {
+		for i := 0; i < 2; i++ {
+			p, q := x, y
+			if i == 1 {
+				p, q = y, x
+			}
+			if p.op == OShl && p.args[1].IsConst() && !q.IsConst() {
+				k := int(p.args[1].k)
+				if k > 0 && k < w && q.ub < uint64(1)<<uint(k) {
+					return b.Concat(b.Extract(p.args[0], w-k-1, 0), b.Extract(q, k-1, 0))
+				}
+			}
+		}
+	}
 	// light simplifications
 	switch op {
 	case OAdd:
@@ -396,12 +411,33 @@ func (b *TB) bin(op Op, x, y *T) *T {
 		if y.IsConst() && y.k == 0 {
 			return x
 		}
+		// (t + c1) + c2  ->  t + (c1+c2)
+		if y.IsConst() && x.op == OAdd && x.args[1].IsConst() {
+			return b.bin(OAdd, x.args[0], b.BV(w, x.args[1].k+y.k))
+		}
+		if x.IsConst() && y.op == OAdd && y.args[1].IsConst() {
+			return b.bin(OAdd, y.args[0], b.BV(w, y.args[1].k+x.k))
+		}
+		if x.IsConst() && !y.IsConst() {
+			x, y = y, x // constants on the right
+		}
 	case OSub:
 		if y.IsConst() && y.k == 0 {
 			return x
 		}
 		if x == y {
 			return b.BV(w, 0)
+		}
+		if x.op == OAdd {
+			if x.args[0] == y {
+				return x.args[1]
+			}
+			if x.args[1] == y {
+				return x.args[0]
+			}
+		}
+		if y.IsConst() {
+			return b.bin(OAdd, x, b.BV(w, -y.k)) // normal form: additions of constants
 		}
 	case OMul:
 		if x.IsConst() && x.k == 1 {
@@ -425,6 +461,13 @@ func (b *TB) bin(op Op, x, y *T) *T {
 		}
 		if x == y {
 			return x
+		}
+		// masking with 2^k-1 a value already below 2^k
+		if y.IsConst() && y.k&(y.k+1) == 0 && x.ub <= y.k {
+			return x
+		}
+		if x.IsConst() && x.k&(x.k+1) == 0 && y.ub <= x.k {
+			return y
 		}
 	case OBOr, OBXor:
 		if x.IsConst() && x.k == 0 {
@@ -560,6 +603,13 @@ func (b *TB) cmp(op Op, x, y *T) *T {
 	if x == y {
 		return b.Bool(op == OULe || op == OSLe)
 	}
+	// signed comparison of two values known to be non-negative is the unsigned comparison
+	if (op == OSLt || op == OSLe) && x.ub < uint64(1)<<uint(x.w-1) && y.ub < uint64(1)<<uint(y.w-1) {
+		if op == OSLt {
+			return b.cmp(OULt, x, y)
+		}
+		return b.cmp(OULe, x, y)
+	}
 	// unsigned: x < 0 false ; 0 <= x true
 	if op == OULt && y.IsConst() && y.k == 0 {
 		return b.fls
@@ -637,6 +687,9 @@ func (b *TB) Extract(x *T, hi, lo int) *T {
 		if x.op == OZExt && lo >= in.w {
 			return b.BV(w, 0)
 		}
+		if x.op == OZExt && lo == 0 {
+			return b.ZExt(in, w)
+		}
 	}
 	if x.op == OConcat {
 		lw := x.args[1].w
@@ -650,6 +703,21 @@ func (b *TB) Extract(x *T, hi, lo int) *T {
 	if x.op == OExtract {
 		ilo := int(x.k & 0xff)
 		return b.Extract(x.args[0], hi+ilo, lo+ilo)
+	}
+	if x.op == OLShr && x.args[1].IsConst() {
+		c := int(x.args[1].k)
+		if hi+c < x.w {
+			return b.Extract(x.args[0], hi+c, lo+c)
+		}
+	}
+	if x.op == OShl && x.args[1].IsConst() {
+		c := int(x.args[1].k)
+		if lo >= c && c < x.w {
+			return b.Extract(x.args[0], hi-c, lo-c)
+		}
+		if hi < c {
+			return b.BV(w, 0)
+		}
 	}
 	return b.mk(&T{op: OExtract, w: w, args: []*T{x}, k: uint64(hi)<<8 | uint64(lo)})
 }
@@ -683,6 +751,9 @@ func (b *TB) SExt(x *T, w int) *T {
 	if x.op == OZExt {
 		return b.ZExt(x.args[0], w)
 	}
+	if x.ub < uint64(1)<<uint(x.w-1) {
+		return b.ZExt(x, w) // known non-negative
+	}
 	return b.mk(&T{op: OSExt, w: w, args: []*T{x}, k: uint64(w - x.w)})
 }
 
@@ -696,6 +767,10 @@ func (b *TB) Concat(hi, lo *T) *T {
 	}
 	if hi.IsConst() && hi.k == 0 {
 		return b.ZExt(lo, w)
+	}
+	if hi.op == OZExt {
+		inner := hi.args[0]
+		return b.ZExt(b.Concat(inner, lo), w)
 	}
 	// adjacent extracts of the same term
 	if hi.op == OExtract && lo.op == OExtract && hi.args[0] == lo.args[0] {
